@@ -158,15 +158,21 @@ func (fakeSTS) SetHeader(metadata.MD) error  { return nil }
 func (fakeSTS) SendHeader(metadata.MD) error { return nil }
 func (fakeSTS) SetTrailer(metadata.MD) error { return nil }
 
-// settled reports whether BOTH routers of the ReflectionRouter route the sentinel service to `name` with a description
-// that reads back as the contract c (so a change that keeps every name and template is waited for as well).
+// settled reports whether BOTH routers of the ReflectionRouter have the contract c for `name`: the ServiceRouter routes
+// the sentinel service to `name` with a description that reads back as c (so a change that keeps every name and template
+// is waited for as well), and the PatternRouter routes the sentinel's default path the same way — or, when the sentinel of
+// c is BARE (c has nothing routable for the PatternRouter), does not route that path to `name` with any OTHER description.
+// (The fan-out is sequential, pattern router first, so the PatternRouter's turn is over when the ServiceRouter has c.)
 func (e *env) settled(name string, sent service, want string) bool {
-	path := "/" + sent.name + "/" + sent.methods[0].name
+	path := "/" + sent.name + "/Ping"
 	_, gr, err := e.router.RouteGRPC(grpc.NewContextWithServerTransportStream(context.Background(), fakeSTS{path}))
 	if err != nil || gr.Target == nil || gr.Target.Name != name || contractOfDesc(gr.Target).canon() != want {
 		return false
 	}
 	_, hr, err := e.router.RouteHTTP(httptest.NewRequest("POST", path, nil))
+	if !sent.has("Ping") {
+		return err != nil || hr.Target == nil || hr.Target.Name != name || contractOfDesc(hr.Target).canon() == want
+	}
 	return err == nil && hr.Target != nil && hr.Target.Name == name && contractOfDesc(hr.Target).canon() == want
 }
 
